@@ -9,9 +9,9 @@ use vocabulary::INSIGNIFICANT;
 
 fn lemmatize(word: &str) -> &str {
     // brute, blind removal of 's' ending is enough here
-    if word.ends_with("os") && word != "dos" || word.ends_with("as") {
+    if word.ends_with("os") && word != "dos" && word != "veintidos" || word.ends_with("as") {
         word.trim_end_matches('s')
-    } else if word.ends_with("es") && word != "tres" {
+    } else if word.ends_with("es") && word != "tres" && word != "veintitres" {
         word.trim_end_matches("es")
     } else {
         word
